@@ -5,3 +5,5 @@ FUNCTIONS = []
 STANDINS = ["roundtrip"]
 ASSUMPTIONS = []
 EXPLANATION = ""
+LEVEL_TEXT = 'bounded stand-in only so far: encode -> open -> compare for UGRID/Exodus/SCRIP x materialised derived quantities x earlier encodings, NetCDF write, module constants'
+LEVEL_NOTE = 'no function under contract yet (encoders build variable names from strings; _encode_ugrid frame contract planned)'
